@@ -23,21 +23,17 @@ import (
 	"github.com/cloudwego/thriftgo/parser"
 )
 
-func typeHasEnum(t *parser.Type, visited map[*parser.Type]bool) bool {
-	if t == nil {
+// rwctxHasEnum reports whether a field, or any key or element nested in it, is an enum.
+// It walks the ReadWriteContext instead of parser.Type.KeyType / ValueType,
+// which are nil if a container is declared through a typedef.
+func rwctxHasEnum(c *golang.ReadWriteContext) bool {
+	if c == nil {
 		return false
 	}
-	if t.Category == parser.Category_Enum {
+	if c.Type.Category == parser.Category_Enum {
 		return true
 	}
-	if visited[t] {
-		return false
-	}
-	if visited == nil {
-		visited = map[*parser.Type]bool{}
-	}
-	visited[t] = true
-	return typeHasEnum(t.KeyType, visited) || typeHasEnum(t.ValueType, visited)
+	return rwctxHasEnum(c.KeyCtx) || rwctxHasEnum(c.ValCtx)
 }
 
 func (g *FastGoBackend) genFastRead(w *codewriter, scope *golang.Scope, s *golang.StructLike) {
@@ -64,8 +60,15 @@ func (g *FastGoBackend) genFastRead(w *codewriter, scope *golang.Scope, s *golan
 	isset := newBitsetCodeGen("isset", "uint8")
 	hasEnum := false
 	ff := getSortedFields(s)
-	for _, f := range ff {
-		if typeHasEnum(f.Type, nil) {
+	rwctxs := make([]*golang.ReadWriteContext, len(ff))
+	for i, f := range ff {
+		rwctx, err := g.utils.MkRWCtx(scope, f)
+		if err != nil {
+			// never goes here, should fail early in generator/golang pkg
+			panic(err)
+		}
+		rwctxs[i] = rwctx
+		if rwctxHasEnum(rwctx) {
 			hasEnum = true
 		}
 		if f.Requiredness == parser.FieldType_Required {
@@ -88,12 +91,8 @@ func (g *FastGoBackend) genFastRead(w *codewriter, scope *golang.Scope, s *golan
 
 	// fields
 	w.f("switch uint32(fid)<<8| uint32(ftyp) {")
-	for _, f := range ff {
-		rwctx, err := g.utils.MkRWCtx(scope, f)
-		if err != nil {
-			// never goes here, should fail early in generator/golang pkg
-			panic(err)
-		}
+	for i, f := range ff {
+		rwctx := rwctxs[i]
 		w.f("case 0x%x: // %s ID:%d %s",
 			uint32(f.ID)<<8|uint32(category2ThriftWireType[f.Type.Category]),
 			rwctx.Target, f.ID, category2GopkgConsts[f.Type.Category])
